@@ -17,9 +17,12 @@ ParseDec(cs) ==
 
 (* the value of an aggregated column for node n, as BigNat; a column may be undefined for an entry (line_count of a *)
 (* directory): such an entry counts for COUNT and contributes nothing to SUM, MIN and MAX                           *)
-Defined(r, n, col) == col = "size" \/ Attr(r, n, col).t # "none"
+Defined(r, n, col) == col \in {"size", "size * 2", "size + 1"} \/ Attr(r, n, col).t # "none"
+SizeBig(r, n) == LET c == r.snapshot[n].sizec IN FromDigits([i \in 1 .. Len(c) |-> DigitVal(c[i])])
 NatOf(r, n, col) ==
-  IF col = "size" THEN LET c == r.snapshot[n].sizec IN FromDigits([i \in 1 .. Len(c) |-> DigitVal(c[i])])
+  IF col = "size" THEN SizeBig(r, n)
+  ELSE IF col = "size * 2" THEN MulSmall(SizeBig(r, n), 2)              \* (an aggregate may wrap an arithmetic expression)
+  ELSE IF col = "size + 1" THEN Add(SizeBig(r, n), <<1>>)
   ELSE FromInt(Attr(r, n, col).v)
 
 RECURSIVE SumOver(_, _, _, _)
